@@ -2,7 +2,7 @@
    Statements only (copied from the lemma libraries); every proof is a bare
    `exact`; see the cited files in coq/proofs for the proofs. *)
 From Coq Require Import List NArith ZArith Bool Arith Sorting.Sorted Sorting.Permutation.
-From D2P Require Import Str Err Xml TableTypes Tables Fmt Bullets Merge Collector Walk ShapeFacts TokFacts FrameFacts MergeFacts Predicates SeqFacts LineageFacts BulletsFacts GridFacts LineageFacts GridWalk BlocksSpec MarkerFacts ReplaceFacts StandIns PyVal Source SourceBase SourceMerge PyHeap SourceHeap SourceHeapRuns SourceCaret SourceRuns SourceFmt SourceForms SourceCaret2 SourceFresh SourceParas.
+From D2P Require Import Str Err Xml TableTypes Tables Fmt Bullets Merge Collector Walk ShapeFacts TokFacts FrameFacts MergeFacts Predicates SeqFacts LineageFacts BulletsFacts GridFacts LineageFacts GridWalk BlocksSpec MarkerFacts ReplaceFacts StandIns PyVal Source SourceBase SourceMerge PyHeap SourceHeap SourceHeapRuns SourceCaret SourceRuns SourceElem SourceForms SourceCaret2 SourceFresh SourceParas.
 Import ListNotations.
 
 (* refinement to the declarative spec: walking a paragraph whose content is inline (any nesting of runs, wrappers, unknown elements, hyperlinks, pictures, forms, equations; no nested paragraph, table cell, note or comment marker) appends exactly ONE record after all earlier ones, pointing at that element, with its style, whose tokens are: queued note label, list marker, then the contributions of its children in document order - nothing else, nothing twice, nothing from elsewhere; the open-paragraph stack and comment ranges are untouched *)
